@@ -146,7 +146,8 @@ func (pool *TxPool) delTx(tx *types.Transaction) {
 	}
 
 	hash := tx.Hash()
-	if index, ok := pool.hashIndexMap[hash]; ok {
+	index, ok := pool.hashIndexMap[hash]
+	if ok {
 		// If tx is a sub tx (from other miner's block). This will delete the box tx. So the box tx would not be packaged, it will be deleted when expired
 		// There is a small problem is that the other sub txs in the box could not be add into pool, because they are already in hashIndexMap, but they are not in txs
 		pool.txs[index] = nil
@@ -159,7 +160,10 @@ func (pool *TxPool) delTx(tx *types.Transaction) {
 	// delete indexes of sub transactions in box transaction
 	if tx.Type() == params.BoxTx {
 		for _, subTx := range getSubTxs(tx) {
-			delete(pool.hashIndexMap, subTx.Hash())
+			// The index of a sub transaction belongs to this box only if it points to the slot of the box. The sub transaction may be in the pool by itself or in another box. Then its index must be kept, or it can never be deleted and may be picked together with that box
+			if subIndex, exist := pool.hashIndexMap[subTx.Hash()]; exist && ok && subIndex == index {
+				delete(pool.hashIndexMap, subTx.Hash())
+			}
 		}
 	}
 }
